@@ -210,6 +210,41 @@ async fn run_program(st: &mut Store, mode: Mode, prog: &[Op], stats: &mut (u64, 
                         if got != exp {
                             return Err(format!("op {}: scan differs from snapshot + pending writes: got {} expected {}", i, e1::fmt_list(&got), e1::fmt_list(&exp)));
                         }
+                        // the same view entered by seek(k) for every key of the alphabet (a pending
+                        // write on k itself must be the first thing the cursor shows), and backward
+                        for k in &keys {
+                            let from = (|| -> Result<Vec<(Vec<u8>, Vec<u8>)>, String> {
+                                let mut it = tx.range(e1::LO_ALL, e1::HI_ALL).map_err(|e| e.to_string())?;
+                                let mut out = vec![];
+                                let mut ok = it.seek(k).map_err(|e| e.to_string())?;
+                                while ok {
+                                    out.push((it.key().user_key().to_vec(), it.value().map_err(|e| e.to_string())?));
+                                    ok = it.next().map_err(|e| e.to_string())?;
+                                }
+                                Ok(out)
+                            })()
+                            .map_err(|e| format!("op {}: seek({}) scan failed: {e}", i, hex(k)))?;
+                            let want: Vec<(Vec<u8>, Vec<u8>)> = exp.iter().filter(|e| e.0.as_slice() >= k.as_slice()).cloned().collect();
+                            if from != want {
+                                return Err(format!("op {}: scan entered by seek({}) differs from snapshot + pending writes: got {} expected {}", i, hex(k), e1::fmt_list(&from), e1::fmt_list(&want)));
+                            }
+                        }
+                        let back = (|| -> Result<Vec<(Vec<u8>, Vec<u8>)>, String> {
+                            let mut it = tx.range(e1::LO_ALL, e1::HI_ALL).map_err(|e| e.to_string())?;
+                            let mut out = vec![];
+                            let mut ok = it.seek_last().map_err(|e| e.to_string())?;
+                            while ok {
+                                out.push((it.key().user_key().to_vec(), it.value().map_err(|e| e.to_string())?));
+                                ok = it.prev().map_err(|e| e.to_string())?;
+                            }
+                            Ok(out)
+                        })()
+                        .map_err(|e| format!("op {}: backward scan failed: {e}", i))?;
+                        let mut wantb = exp.clone();
+                        wantb.reverse();
+                        if back != wantb {
+                            return Err(format!("op {}: backward scan differs from snapshot + pending writes: got {} expected {}", i, e1::fmt_list(&back), e1::fmt_list(&wantb)));
+                        }
                     }
                 }
             }
